@@ -36,37 +36,37 @@ META = {
 
 def check(ctx):
     m = cc.build(ctx, "R02")
-    r02_1(ctx, m)
-    r02_2(ctx, m)
+    ctx.run(r02_1, m)
+    ctx.run(r02_2, m)
     # inverse pair: structural necessary conditions
-    c01.r01_1_filter(ctx, m, m.to_unstable[0], "R01.1")
-    c01.r01_1_search(ctx, m)
-    c01.r01_2(ctx, m)
-    c01.r01_5(ctx, m)
-    c01.r01_46_stable(ctx, m)
-    c01.r01_46_unstable(ctx, m)
+    ctx.run(c01.r01_1_filter, m, m.to_unstable[0], "R01.1")
+    ctx.run(c01.r01_1_search, m)
+    ctx.run(c01.r01_2, m)
+    ctx.run(c01.r01_5, m)
+    ctx.run(c01.r01_46_stable, m)
+    ctx.run(c01.r01_46_unstable, m)
     from . import c03, c16
     from .c19 import tag_loop, tag_regex_info
 
-    c03.r03_7(ctx)
-    c03.r03_4(ctx, None)
-    c01.r01_8(ctx)
-    c01.r01_9(ctx, m)
+    ctx.run(c03.r03_7)
+    ctx.run(c03.r03_4, None)
+    ctx.run(c01.r01_8)
+    ctx.run(c01.r01_9, m)
     # "every optional field ... unchanged": the parser must accept the whole tag grammar (shared with C16)
     pf, loop = tag_loop(ctx, "R16.1")
     info16 = tag_regex_info(pf, loop, "R16.1")
-    c16.r16_1(ctx, pf, loop, info16)
-    c16.r16_2(ctx, pf, loop)
+    ctx.run(c16.r16_1, pf, loop, info16)
+    ctx.run(c16.r16_2, pf, loop)
     ctx.not_decided.append("composition of the two directions on canonical records (round-trip equality as a whole)")
     # mechanisms this property rests on (see shared.py): a change there is reported here as well
     from . import shared as _sh
 
-    _sh.path_tokenisers(ctx)
-    _sh.gaf_reader(ctx)
-    _sh.tag_parser(ctx)
-    _sh.graph_loader(ctx)
-    _sh.contig_paths(ctx)
-    _sh.cli_layer(ctx, "gaftools.cli.view")
+    ctx.run(_sh.path_tokenisers)
+    ctx.run(_sh.gaf_reader)
+    ctx.run(_sh.tag_parser)
+    ctx.run(_sh.graph_loader)
+    ctx.run(_sh.contig_paths)
+    ctx.run(_sh.cli_layer, "gaftools.cli.view")
 
 
 def r02_1(ctx, m):
